@@ -26,6 +26,7 @@ const (
 	A = "allow"
 	W = "ws"
 	L = "crossbar"
+	K = "leave" // the client of a connection that joined before the race goes away (Hub.drop)
 )
 
 type Obs struct {
@@ -37,6 +38,7 @@ type Obs struct {
 	CodeLeft bool `json:"codeleft"` // a code issued during the schedule still admits a websocket afterwards
 	WsLive   bool `json:"wslive"`   // the websocket thread's connection is joined at quiescence
 	NewSess  int  `json:"newsess"`  // status of a fresh session request made at quiescence
+	Readmit  bool `json:"readmit"`  // after an explicit allow at the very end, a new session + websocket joins again
 }
 
 type Case struct {
@@ -96,10 +98,16 @@ func has(l []string, x string) bool {
 	return false
 }
 
-// enabledSet returns the thread kinds that can take a step now.
-func (r *runner) enabledSet(bid string, threads []string) []string {
+// enabledSet returns the actors that can take a step now.
+func (r *runner) enabledSet(bid string, threads []string, leavePending bool) []string {
 	en := []string{}
 	for _, k := range append(append([]string{}, threads...), L) {
+		if k == K {
+			if leavePending {
+				en = append(en, K)
+			}
+			continue
+		}
 		if r.c.parkedAt(k+":"+bid) != "" {
 			en = append(en, k)
 		}
@@ -107,19 +115,52 @@ func (r *runner) enabledSet(bid string, threads []string) []string {
 	return en
 }
 
-// run executes one scenario: follow prefix, then always the first enabled thread. It returns the
+// run executes one scenario: follow prefix, then always the first enabled actor. It returns the
 // executed schedule, the enabled set at every step (for the enumeration) and the observation.
 func (r *runner) run(family string, threads []string, prefix []string) (Case, [][]string) {
+	return r.runWith(family, threads, func(i int, en []string) (string, error) {
+		if i < len(prefix) {
+			if !has(en, prefix[i]) {
+				return "", fmt.Errorf("schedule step %d: %s is not enabled (enabled %v)", i, prefix[i], en)
+			}
+			return prefix[i], nil
+		}
+		return en[0], nil
+	})
+}
+
+func (r *runner) dialAs(uri, ua string) *websocket.Conn {
+	h := http.Header{}
+	h.Set("User-Agent", ua)
+	c, _, e := lib.Dial(uri, h)
+	if e != nil {
+		return nil
+	}
+	return c
+}
+
+// runWith executes one scenario; choose picks the next actor among the enabled ones.
+// A thread set containing K ("leave") starts with a connection of the booking already joined.
+func (r *runner) runWith(family string, threads []string, choose func(i int, en []string) (string, error)) (Case, [][]string) {
 	id := atomic.AddInt64(&r.n, 1)
 	bid := fmt.Sprintf("bk%d-%d", os.Getpid(), id)
 	exp := time.Now().Unix() + 600
 	cs := Case{Family: family, Threads: threads}
 	topic := "t-" + bid
-	var wsConn *websocket.Conn
+	var wsConn, preConn *websocket.Conn
 	wsUA := "ws-thread-" + bid
+	preUA := "pre-joined-" + bid
 	var issued []string
+	defer func() {
+		if wsConn != nil {
+			wsConn.Close()
+		}
+		if preConn != nil {
+			preConn.Close()
+		}
+	}()
 
-	// a code for the websocket thread is issued before the race starts
+	// before the race: a code for the websocket thread; a joined connection for the leave actor
 	wsCode := ""
 	if has(threads, W) {
 		st, _, code := r.rl.Session(topic, r.bearer(bid, exp))
@@ -131,6 +172,20 @@ func (r *runner) run(family string, threads []string, prefix []string) (Case, []
 		r.c.mu.Lock()
 		r.c.codeBid[code] = bid
 		r.c.mu.Unlock()
+	}
+	leavePending := false
+	if has(threads, K) {
+		st, uri, _ := r.rl.Session(topic, r.bearer(bid, exp))
+		if st != 200 {
+			cs.Err = fmt.Sprintf("pre-session status %d", st)
+			return cs, nil
+		}
+		preConn = r.dialAs(uri, preUA)
+		if preConn == nil || !r.waitListed(preUA, true) {
+			cs.Err = "pre-joined connection did not join"
+			return cs, nil
+		}
+		leavePending = true
 	}
 	r.c.mu.Lock()
 	r.c.managed[bid] = true
@@ -162,12 +217,7 @@ func (r *runner) run(family string, threads []string, prefix []string) (Case, []
 			err = r.c.launch(A+":"+bid, true, func() { cs.Obs.Allow = r.rl.Allow(bid, exp, r.admin).Status })
 		case W:
 			err = r.c.launch(W+":"+bid, false, func() {
-				h := http.Header{}
-				h.Set("User-Agent", wsUA)
-				c, _, e := lib.Dial(r.rl.Target+"/session/"+topic+"?code="+wsCode, h)
-				if e == nil {
-					wsConn = c
-				}
+				wsConn = r.dialAs(r.rl.Target+"/session/"+topic+"?code="+wsCode, wsUA)
 			})
 		}
 		if err != nil {
@@ -177,19 +227,25 @@ func (r *runner) run(family string, threads []string, prefix []string) (Case, []
 
 	var enabledAt [][]string
 	for i := 0; ; i++ {
-		en := r.enabledSet(bid, threads)
+		en := r.enabledSet(bid, threads, leavePending)
 		if len(en) == 0 {
 			break
 		}
-		pick := en[0]
-		if i < len(prefix) {
-			if !has(en, prefix[i]) {
-				return fail(fmt.Errorf("schedule step %d: %s is not enabled (enabled %v)", i, prefix[i], en))
-			}
-			pick = prefix[i]
+		pick, err := choose(i, en)
+		if err != nil {
+			return fail(err)
 		}
 		enabledAt = append(enabledAt, en)
 		cs.Schedule = append(cs.Schedule, pick)
+		if pick == K { // the client goes away; wait until the hub has dropped the connection
+			leavePending = false
+			preConn.Close()
+			if !r.waitListed(preUA, false) {
+				return fail(fmt.Errorf("connection still listed 2 s after its client went away"))
+			}
+			time.Sleep(5 * time.Millisecond) // drop() deletes the chanmap entry right after the membership
+			continue
+		}
 		tid := pick + ":" + bid
 		before := len(r.c.traceOf(tid))
 		if err := r.c.step(tid); err != nil {
@@ -209,6 +265,9 @@ func (r *runner) run(family string, threads []string, prefix []string) (Case, []
 	}
 	// quiescence: nothing parked; wait for the threads to finish
 	for _, k := range threads {
+		if k == K {
+			continue
+		}
 		if err := r.waitDone(k + ":" + bid); err != nil {
 			return fail(err)
 		}
@@ -223,12 +282,13 @@ func (r *runner) run(family string, threads []string, prefix []string) (Case, []
 	if has(threads, W) {
 		cs.Obs.WsLive = r.stableListed(wsUA)
 	}
+	if has(threads, K) && r.stableListed(preUA) {
+		cs.Obs.WsLive = true
+	}
 	for k, code := range issued {
 		ua := fmt.Sprintf("probe-%s-%d", bid, k)
-		h := http.Header{}
-		h.Set("User-Agent", ua)
-		c, _, e := lib.Dial(r.rl.Target+"/session/"+topic+"?code="+code, h)
-		if e == nil {
+		c := r.dialAs(r.rl.Target+"/session/"+topic+"?code="+code, ua)
+		if c != nil {
 			time.Sleep(30 * time.Millisecond)
 			if r.stableListed(ua) {
 				cs.Obs.CodeLeft = true
@@ -238,12 +298,30 @@ func (r *runner) run(family string, threads []string, prefix []string) (Case, []
 	}
 	st, _, _ := r.rl.Session(topic, r.bearer(bid, exp))
 	cs.Obs.NewSess = st
-	if wsConn != nil {
-		wsConn.Close()
+	// an explicit allow lifts whatever is left; the booking must be usable again
+	r.rl.Allow(bid, time.Now().Unix()+600, r.admin)
+	st2, uri, _ := r.rl.Session(topic, r.bearer(bid, exp))
+	if st2 == 200 {
+		ua := "readmit-" + bid
+		if c := r.dialAs(uri, ua); c != nil {
+			cs.Obs.Readmit = r.waitListed(ua, true)
+			c.Close()
+		}
 	}
 	// leave no trace for later scenarios
 	r.rl.Allow(bid, time.Now().Unix()+1, r.admin)
 	return cs, enabledAt
+}
+
+// waitListed polls /status until the user agent is (not) listed, up to 2 s.
+func (r *runner) waitListed(ua string, want bool) bool {
+	for i := 0; i < 100; i++ {
+		if r.listed(ua) == want {
+			return true
+		}
+		time.Sleep(20 * time.Millisecond)
+	}
+	return false
 }
 
 func (r *runner) waitDone(tid string) error {
@@ -258,37 +336,34 @@ func (r *runner) waitDone(tid string) error {
 }
 
 // enumerate explores every interleaving (stateless DFS with re-execution).
-func (r *runner) enumerate(family string, threads []string, limit int, out *[]Case) {
+func (r *runner) enumerate(family string, threads []string, out *[]Case) {
 	var dfs func(prefix []string)
-	count := 0
 	dfs = func(prefix []string) {
-		if limit > 0 && count >= limit {
-			return
-		}
 		cs, en := r.run(family, threads, prefix)
-		count++
 		*out = append(*out, cs)
 		if cs.Err != "" {
 			return
 		}
 		for i := len(cs.Schedule) - 1; i >= len(prefix); i-- {
-			for _, alt := range en[i] {
-				if alt > cs.Schedule[i] || (alt != cs.Schedule[i] && !firstOf(en[i], cs.Schedule[i], alt)) {
-					_ = alt
-				}
-			}
 			// alternatives not yet taken at position i: those after the chosen one in en[i]
 			idx := indexOf(en[i], cs.Schedule[i])
 			for _, alt := range en[i][idx+1:] {
-				np := append(append([]string{}, cs.Schedule[:i]...), alt)
-				dfs(np)
+				dfs(append(append([]string{}, cs.Schedule[:i]...), alt))
 			}
 		}
 	}
 	dfs(nil)
 }
 
-func firstOf(l []string, a, b string) bool { return indexOf(l, a) < indexOf(l, b) }
+// sample runs n random schedules (uniform choice among the enabled actors at every step).
+func (r *runner) sample(family string, threads []string, n int, rng *lib.Rng, out *[]Case) {
+	for k := 0; k < n; k++ {
+		g := rng.Fork()
+		cs, _ := r.runWith(family, threads, func(i int, en []string) (string, error) { return en[g.Intn(len(en))], nil })
+		*out = append(*out, cs)
+	}
+}
+
 func indexOf(l []string, x string) int {
 	for i, y := range l {
 		if y == x {
@@ -314,8 +389,14 @@ func oracle(cs Case, idx int, res *lib.Result) {
 		return -1
 	}
 	dPos, aPos := firstStep(D), firstStep(A)
+	if !cs.Obs.Readmit {
+		res.Violate(lib.Violation{Clause: "allow-does-not-restore", Case: idx, Detail: fmt.Sprintf("after an explicit allow at the end a new session + websocket for the booking did not join [family %s schedule %v]", cs.Family, cs.Schedule), Replay: cs, Key: "allow-does-not-restore:" + cs.Family})
+	}
+	if has(cs.Threads, D) && cs.Obs.Deny != 204 {
+		res.Violate(lib.Violation{Clause: "valid-deny-refused", Case: idx, Detail: fmt.Sprintf("valid deny request answered %d [family %s schedule %v]", cs.Obs.Deny, cs.Family, cs.Schedule), Replay: cs, Key: "valid-deny-refused:" + cs.Family})
+	}
 	if cs.Obs.Deny != 204 {
-		return // deny was not acknowledged: the property says nothing
+		return // deny was not acknowledged: the property says nothing more
 	}
 	explicitAllowAfter := aPos > dPos && cs.Obs.Allow == 204
 	key := func(clause string) string { return clause + ":" + cs.Family }
@@ -339,7 +420,6 @@ func oracle(cs Case, idx int, res *lib.Result) {
 	}
 }
 
-var kindN = map[string]int{S: 0, D: 1, A: 2, W: 3, L: 4}
 
 func (cs Case) coq() string {
 	th := make([]string, len(cs.Threads))
@@ -352,7 +432,7 @@ func (cs Case) coq() string {
 	}
 	o := cs.Obs
 	obs := lib.App("mkobs", lib.N(uint64(o.Sess)), lib.N(uint64(o.Deny)), lib.N(uint64(o.Allow)), lib.Bool(o.Denied), lib.Bool(o.Allowed),
-		lib.Bool(o.CodeLeft), lib.Bool(o.WsLive), lib.N(uint64(o.NewSess)))
+		lib.Bool(o.CodeLeft), lib.Bool(o.WsLive), lib.N(uint64(o.NewSess)), lib.Bool(o.Readmit))
 	return lib.Tuple(lib.List(th), lib.List(sc), obs)
 }
 
@@ -371,18 +451,36 @@ func main() {
 		out, _ := r.run(cs.Family, cs.Threads, cs.Schedule)
 		cases = append(cases, out)
 	} else {
-		fams := []struct {
-			name    string
-			threads []string
-			limit   int
-		}{
-			{"SD", []string{S, D}, 0},
-			{"WD", []string{W, D}, 0},
-			{"SDA", []string{S, D, A}, a.Pick(120, 0)},
-			{"WDA", []string{W, D, A}, a.Pick(120, 0)},
+		rng := lib.NewRng(a.Seed)
+		// a bystander on another booking must never be affected
+		byBid := fmt.Sprintf("bystander-%d", os.Getpid())
+		_, byURI, _ := rl.Session("t-"+byBid, r.bearer(byBid, time.Now().Unix()+3600))
+		byConn := r.dialAs(byURI, "bystander-conn")
+		if byConn == nil || !r.waitListed("bystander-conn", true) {
+			fmt.Fprintln(os.Stderr, "bystander did not join")
+			os.Exit(2)
 		}
-		for _, f := range fams {
-			r.enumerate(f.name, f.threads, f.limit, &cases)
+		defer byConn.Close()
+		// exhaustive: every interleaving of the two-actor families
+		r.enumerate("SD", []string{S, D}, &cases)
+		r.enumerate("WD", []string{W, D}, &cases)
+		r.enumerate("KD", []string{K, D}, &cases)
+		if a.Tier == "thorough" {
+			r.enumerate("SDA", []string{S, D, A}, &cases)
+			r.enumerate("WDA", []string{W, D, A}, &cases)
+			r.enumerate("SWD", []string{S, W, D}, &cases)
+			r.enumerate("KDA", []string{K, D, A}, &cases)
+			r.sample("SWDA", []string{S, W, D, A}, a.Pick(0, 600), rng, &cases)
+			r.sample("SWKDA", []string{S, W, K, D, A}, a.Pick(0, 600), rng, &cases)
+		} else {
+			r.sample("SDA", []string{S, D, A}, a.Pick(60, 0), rng, &cases)
+			r.sample("WDA", []string{W, D, A}, a.Pick(60, 0), rng, &cases)
+			r.sample("SWD", []string{S, W, D}, a.Pick(50, 0), rng, &cases)
+			r.sample("SWKDA", []string{S, W, K, D, A}, a.Pick(50, 0), rng, &cases)
+		}
+		dl, _ := rl.BidList("deny", r.admin)
+		if !r.listed("bystander-conn") || has(dl, byBid) {
+			res.Violate(lib.Violation{Clause: "other-booking-affected", Case: -1, Detail: "a connection on a booking that no request named was closed or denied during the run", Replay: map[string]string{"bystander": byBid}, Key: "other-booking-affected"})
 		}
 	}
 	coq := []string{}
